@@ -367,3 +367,41 @@ func VxC04Reopened() {
 	info, err := db.verifyWithExecutor(context.Background(), exec)
 	vxCheckContinuity(h, info, err)
 }
+
+// VxC04InitBehind: the local state directory was lost while the process was down;
+// the replica holds 1..N. The real DB.init runs its database-behind-replica check
+// against a replica whose calls may fail transiently. Whenever init reports
+// success the local position is not below what the replica holds (the baseline
+// was fetched), so the snapshot the next sync takes is numbered above everything
+// already on the replica; a failing check fails init loudly (it is retried by the
+// next sync) instead of letting replication start over at TXID 1.
+func VxC04InitBehind() {
+	dir := vx.TempDir()
+	path := dir + "/app.db"
+	vx.FSWriteFile(path, []byte("SQLite format 3\x00"))
+	vx.FSWriteFile(path+"-wal", make([]byte, WALHeaderSize))
+	vxNewSQLEnv(false)
+	defer func() { vxSQLHandler = nil }()
+	db := NewDB(path)
+	c := &vxFaultClient{}
+	n := vx.Choose("remote", 1, 3)
+	for t := 1; t <= n; t++ {
+		f := &vxLTX{level: 0, min: ltx.TXID(t), max: ltx.TXID(t), commit: 2, ts: int64(1000 + t), pages: []vxPg{{1, uint64(t)}}}
+		if t == 1 {
+			f.pages = []vxPg{{1, 1}, {2, 1}}
+		}
+		c.put(f)
+	}
+	db.Replica = NewReplicaWithClient(db, c)
+	db.Replica.MonitorEnabled = false
+	db.MonitorInterval = 0
+	c.faulty = true
+	err := db.init(context.Background())
+	c.faulty = false
+	vx.ObserveBool("init-ok", err == nil)
+	if err != nil {
+		return // loud: nothing is replicated until a later init gets through
+	}
+	pos, perr := db.Pos()
+	vx.Assert("init-success-means-local-position-not-below-replica", perr == nil && pos.TXID >= ltx.TXID(n))
+}
